@@ -100,8 +100,10 @@ def cases_all(tier):
 def cases(tier):
   choice = st.tuples(st.one_of(st.none(), st.integers(0, len(HIDE_REVEAL) - 1)), st.sampled_from(gen_model.TIMES),
                      st.one_of(st.none(), st.sampled_from(gen_model.TIMES)))
-  return st.builds(lambda spec, ch, ops: {"spec": steer(spec, ch), "ops": ops}, gen_model.docspecs(PROF),
-                   st.lists(choice, min_size=3, max_size=3), ops_strategy(12 if tier == "quick" else 30))
+  # (some histories end with the SRT, WebVTT and IMSC writers one after the other, in either order)
+  tails = [[], [], [], [("srt", 0), ("imsc", 0)], [("vtt", 0), ("imsc", 2)], [("imsc", 1), ("srt", 1), ("vtt", 1)], [("vtt", 2), ("srt", 0), ("imsc", 0)]]
+  return st.builds(lambda spec, ch, ops, tail: {"spec": steer(spec, ch), "ops": ops + tail}, gen_model.docspecs(PROF),
+                   st.lists(choice, min_size=3, max_size=3), ops_strategy(12 if tier == "quick" else 30), st.sampled_from(tails))
 
 
 class State:
@@ -165,9 +167,19 @@ def check(case, res):
   steps = [a for n in gen_model.all_nodes(spec) if n["kind"] != "text" for a in n["anims"]]
   if len(set(map(repr, steps))) < len(steps):
     res.label("value-equal-animation-steps")
+  # results of the writer operations before anything else has been done in this case: a writer that keeps state outside the document
+  # (a module-level cache, a shared mutable object) makes the fresh-document comparison below blind, since the fresh document is
+  # processed by the same, already used, process
+  base = {}
+  for op in ops:
+    if op[0] in ("srt", "vtt", "imsc") and op not in base:
+      base[op] = apply(State(spec), op, times)
   for i, op in enumerate(ops):
     res.evals += 1
     r1 = apply(st_, op, times)
+    if op in base and r1 != base[op]:
+      res.fail("history-dependent:%s:differs-from-first-call-of-the-case" % op[0],
+               "operation %d %r differs from the same call made on a fresh document before the other operations of the history" % (i, op))
     fp = canon.fingerprint(st_.doc)
     if fp != fp0:
       res.fail("source-mutated:" + op[0], "after operation %d %r" % (i, op))
